@@ -87,7 +87,9 @@ def near_value_case(rng, cid):
     if kind == "tagcase":
         v = mutate_value(rng, rng.choice(cligen.TAGCASE_VALID))
         base, ok = cligen.base_new(), v in cligen.TAGCASE_VALID
-        args = ["new", "-json"] + rng.choice([[], ["-getset"], ["-opt"]]) + ["-tagcase=" + v, rng.choice(["-type=User", "-type=*", "-file=a.go"])]
+        extra = rng.choice([[], ["-getset"], ["-opt"]])
+        # (-opt on the generic struct of b.go fails to format: keep -opt to a.go's types)
+        args = ["new", "-json"] + extra + ["-tagcase=" + v, rng.choice(["-type=User", "-file=a.go"] + ([] if extra == ["-opt"] else ["-type=*"]))]
     elif kind == "way":
         v = mutate_value(rng, rng.choice(cligen.WAY_VALID))
         base, ok = cligen.base_map(), v in cligen.WAY_VALID
